@@ -1,6 +1,7 @@
 import Driver.Proto
 import Driver.PlyIO
 import PolyVerif.Model.Ply
+import PolyVerif.Model.PlyClaim
 
 namespace Driver.C04
 open PolyVerif.Ply Driver.PlyIO
@@ -40,6 +41,21 @@ def handle (op : String) (args : List String) : Option String :=
   | "c04.holds.header_describes" => do
       let (bs, nv, nf, tri) ← run (do let b ← pBytes; let nv ← pNat; let nf ← pNat; let t ← pNat; pure (b, nv, nf, t)) args
       pure (boolStr (HeaderDescribes bs nv nf (tri = 1)))
+  | "c04.holds.claim_ok" => do
+      -- args: configuration, mesh, the HEADER bytes the real writer emitted.  `claimAgrees` (Model/PlyClaim.lean): the
+      -- real header lists the properties the model writer lists and, inside `claimGuard`, the claim stage run on the
+      -- REAL header builds exactly the predicted readers (theorems ply_reader_claims_predicted / ply_claim_stage)
+      let (cfg, m, bs) ← run (do let c ← pCfg; let m ← pMesh; let b ← pBytes; pure (c, m, b)) args
+      match parseHeader bs with
+      | .ok (h, _) =>
+        match (findElement h (nm "vertex")).bind (fun e => scalarProps e.props) with
+        | some props => pure (boolStr (claimAgrees (selectWriters cfg m) props))
+        | none => pure (boolStr false)
+      | .error _ => pure (boolStr false)
+  | "c04.claim_guard" => do
+      -- measuring aid (never emitted by the harness): is this configuration × mesh inside the header-level guard?
+      let (cfg, m) ← run (do let c ← pCfg; let m ← pMesh; pure (c, m)) args
+      pure (boolStr (claimGuard (selectWriters cfg m)))
   | "c04.holds.encodings_agree" | "c04.holds.uchar_scalar_ascii_agrees" | "c04.holds.ascii_float32_tie_witness" => do
       let (a, b, c) ← run (do let a ← pOkMesh; let b ← pOkMesh; let c ← pOkMesh; pure (a, b, c)) args
       pure (boolStr (meshEq a b && meshEq b c))
